@@ -497,25 +497,26 @@ def pipeline_cases(ctx, formulas):
 
 
 def unindent_cases(ctx, n):
-  """A formula that is one multi-line string literal: the generated body against indent + un-indent of the model."""
+  """Formulas made of one expression around a literal that spans lines (str, bytes, raw, f-string; the code treats
+  every ast.Constant/JoinedStr spanning lines alike): the generated body against indent + un-indent of the model,
+  and against the text itself (the literal comes back exactly as written)."""
   import codebuilder
   rng = ctx.rng
-  pieces = ['', ' ', '  ', '    ', '     ', '        ', '\t', 'a', '  b', '    c', '      d', '# e', '\xa0', '    \xa0',
-            '$A', 'return 5', ' \t ', '    \t']
-  q3 = '"' * 3
   cases, used = [], []
-  for _ in range(n):
-    s = '\n'.join(rng.choice(pieces) for _ in range(rng.randint(2, 6)))
-    f = q3 + s + q3
+  for k in range(n):
+    lit, is_bytes = gen_mlliteral(rng, dollar='rec.A')
+    wrap = rng.choice(['{L}', '{L}', 'len({L})', '({L})', '[{L}][0]'] + (['{L}.decode("ascii")'] if is_bytes else []))
+    f = wrap.replace('{L}', lit)
     ind = rng.choice(['    ', '  ', '        '])
     try:
       body = codebuilder.make_formula_body(f, None, indent=ind).get_text()
     except Exception as e:         # pylint: disable=broad-except
-      ctx.broken('correspondence:make_formula_body raised on a string literal', '%r: %r' % (f, e))
+      ctx.broken('correspondence:make_formula_body raised on a literal spanning lines', '%r: %r' % (f, e))
       continue
     cases.append('(%s, %s, %s)' % (S(ind), S('return ' + f), S(body)))
     used.append(f)
-    ctx.count(('unindent', ind, f), nontrivial=True, sample={'formula': f, 'body': body}, kind='corr:unindent')
+    ctx.count(('unindent', ind, f), nontrivial=True, sample={'formula': f, 'body': body},
+              kind='corr:unindent ' + ('bytes' if is_bytes else 'f-string' if 'f' in lit[:2].lower() else 'str'))
   check = ('fun c => match c with (ind, b, body) => let i := indent_re ind b in let k := (List.length ind + 7)%nat in '
            'teq (firstn k i ++ unindent_re ind (skipn k i)) body && teq body (ind ++ b) end')
   return cases, used, check
@@ -714,7 +715,7 @@ def reference(formula, rows, namespace, emulate_mlstring=False):
   for i, (a, b) in enumerate(rows):
     try:
       v = f(Rec(i + 1, a, b), None)
-      if type(v) not in (int, str, bool, float, type(None)):
+      if type(v) not in (int, str, bool, float, bytes, type(None)):
         return ('unjudged', 'returns a %s' % type(v).__name__)
       out.append(('V', type(v).__name__, v))
     except Exception as e:    # pylint: disable=broad-except
@@ -938,6 +939,50 @@ LEXICAL = ['\x0c$A', ' \x0c$A', 'if 1:\n  \x0c  return 1\nreturn 2', 'x = 1 \x0c
            '$A\x1a', 'x = 1\n\x0c\nx', '"""\x0c"""', '$A\x0b', '\x0b$A', '$A\x1c+1', '\x85$A']
 
 
+# -- literals that span physical lines: every prefix/quote kind the tokenizer knows -------------------------
+
+ML_PREFIXES = ['', '', 'r', 'u', 'R', 'b', 'b', 'B', 'rb', 'br', 'Rb', 'bR', 'BR', 'f', 'F', 'rf', 'fr']
+ML_LINES = ['', ' ', '  ', '    ', '     ', '        ', '\t', 'a', 'y', '  b', '    c', '      d', '# e', 'return 5',
+            ' \t ', '    \t', 'x = 1', '   z  ']
+
+
+def gen_mlliteral(rng, dollar='$A'):
+  """(literal text, is_bytes): a literal whose token spans 2-5 physical lines; continuation lines start with and
+  without whitespace; bytes/raw/f/u prefixes, both quote kinds, triple-quoted or backslash-continued."""
+  prefix = rng.choice(ML_PREFIXES)
+  low = prefix.lower()
+  lines = [rng.choice(ML_LINES) for _ in range(rng.randint(2, 5))]
+  if not any(l.strip() for l in lines[1:]):
+    lines[rng.randrange(1, len(lines))] = rng.choice(['y', '  b', '      d'])
+  if 'f' in low and rng.random() < 0.7:
+    k = rng.randrange(len(lines))
+    lines[k] = lines[k] + '{%s}' % dollar
+  if rng.random() < 0.8:
+    q = rng.choice(['"""', "'''"])
+    return prefix + q + '\n'.join(lines) + q, 'b' in low
+  q = rng.choice(['"', "'"])          # one-quote literal continued with backslash-newline
+  lines = [l.replace('\t', ' ') for l in lines]
+  return prefix + q + '\\\n'.join(lines) + q, 'b' in low
+
+
+ML_WRAP_ANY = ['{L}', 'len({L})', '({L})', '[{L}][0]', '({L}, 1)[0]', 'repr({L})', '{L} if $A > -9 else ""',
+               'x = {L}\nx', 'x = {L}\nreturn len(x)', 'if $A > -9:\n  v = {L}\n  return v\nreturn 0',
+               'def g():\n  return {L}\ng()', 'len({L}) + $A', '[len(p) for p in ({L}, {M})]', '{L} == {L}']
+ML_WRAP_BYTES = ['{L}.decode("ascii")', '{L}.decode("ascii") + str($A)', 'list({L})[-1]', '{L}.count(b" ")']
+ML_WRAP_STR = ['{L} + $B', '{L}.count(" ")', '{L}.splitlines()[-1]', '"%s|%s" % ({L}, $A)']
+
+
+def gen_mlformula(rng):
+  lit, is_bytes = gen_mlliteral(rng)
+  lit2, _ = gen_mlliteral(rng)
+  wrap = rng.choice(ML_WRAP_ANY + (ML_WRAP_BYTES if is_bytes else ML_WRAP_STR) * 2)
+  return wrap.replace('{L}', lit).replace('{M}', lit2)
+
+
+ML_LISTED = ['b"""x\ny""".decode("ascii")', "len(b'''\n\n''') + $A", 'rb"""x\n  y\nz"""', "Rb'''\na\n'''.decode('ascii')",
+             'f"""{$A}\n  y"""', "r'''x\n\\y'''", "len(b'a\\\n  b')", 'u"""x\ny"""']
+
+
 def restyle(rng, f, style):
   """Line-end style and shared indentation."""
   eol, ind = style
@@ -970,7 +1015,7 @@ def gen_formula(rng):
   r = rng.random()
   eol = rng.choice(['\n'] * 6 + ['\r\n', '\r\n', '\r', '\r', 'mixed'])
   ind = rng.choice([''] * 5 + ['  ', '    ', '\t', ' '])
-  if r < 0.5:
+  if r < 0.45:
     if rng.random() < 0.5:
       f = rng.choice(EXPRS)
     else:
@@ -980,19 +1025,22 @@ def gen_formula(rng):
     if rng.random() < 0.3:
       f = f + rng.choice(['\n', '\n\n', '  ', '\n  \n', ' # end', '\n# end $A'])
     tag = 'grammar'
-  elif r < 0.65:
+  elif r < 0.62:
+    f = gen_mlformula(rng)
+    tag = 'multi-line-literal'
+  elif r < 0.72:
     base = rng.choice(EXPRS + STMTS).replace('{E}', rng.choice(EXPRS)).replace('{F}', '2')
     f = mutate(rng, base)
     if rng.random() < 0.3:
       f = mutate(rng, f)
     tag = 'mutated'
-  elif r < 0.8:
+  elif r < 0.84:
     f = rng.choice(INVALID)
     tag = 'invalid'
-  elif r < 0.87:
+  elif r < 0.89:
     f = rng.choice(COMPILE_STAGE)
     tag = 'compile-stage'
-  elif r < 0.93:
+  elif r < 0.94:
     f = rng.choice(LEXICAL)
     tag = 'lexical'
   else:
@@ -1012,7 +1060,7 @@ LISTED = ['x = 1\rreturn x', 'foo(\rbar', '"""a\n    \nb"""', '  x = $A\r\n\r\n 
 def search(ctx):
   rng = ctx.rng
   n = ctx.n(260, 6000)
-  formulas = [(f, 'listed') for f in LISTED] + [gen_formula(rng) for _ in range(n)]
+  formulas = [(f, 'listed') for f in LISTED + ML_LISTED] + [gen_formula(rng) for _ in range(n)]
   doc = None
   used = 0
   path = 'modify'
